@@ -95,6 +95,7 @@ def install(ex, max_segments, max_entries=2):
     def m_map_next(ex_, st, cname, args, dest_ty, fn):
         # iteration over the flattened map: at most max_entries entries, each an arbitrary (key, value)
         n = st.count("flat_entries")
+        st.trace.append(symex.Event(callee="<flat_next>", short="<flat_next>", args=[], akeys=[], result=None, fn=fn.name))
         if n >= max_entries:
             return Agg("Option", "None", [])
         kc = st.new_cell(Opaque("std::string::String", ("flat_key", n)))
